@@ -172,6 +172,7 @@ impl SystemController {
         // the controller ends only when every System handle (sender) is gone
         r is Ready ==> final(self).cmd_rx.closed(),
         old(self).cmd_rx.received().len() <= final(self).cmd_rx.received().len(),
+        r is Pending ==> final(self).cmd_rx.parked(),   // [C09] Future contract: Pending only with the command channel holding the waker
 //@insert after="loop {"
             let ghost pre_map = self.arbiters@;
             let ghost pre_tx = self.stop_tx.is_some();
